@@ -347,3 +347,59 @@ def run_id_comment_pair(prog, tier, repo):
                                       f'attached to that identifier are lost by formatting')
         res.analysed.setdefault('unprinted_slots', []).append(f'{slot_name} ({n_prod} parser constructions)')
     return [res]
+
+
+def run_paren_assoc(prog, tier, repo):
+    """PAREN-ASSOC (C08): the parser builds binary expressions left-associatively, so a right operand of the *same*
+    precedence level keeps its parentheses: wherever the printer decides about parentheses for the right operand of a
+    Binary node, it does so with `equal level => parenthesise`."""
+    res = RuleResult('PAREN-ASSOC', 'C08: formatting never regroups a chain of non-associative operators - an equal-precedence '
+                     'right operand of a binary expression is parenthesised')
+    binary = _adt(prog, SRC_BINARY)
+    if binary is None:
+        res.cannot_decide('expr::Binary')
+        return [res]
+    # the parenthesis decider: printer function (.., &E, &E, bool) that calls E::precedence
+    deciders = []
+    for b in prog.bodies.values():
+        if b.crate != 'samlang_printer' or b.kind == 'closure' or b.nargs < 3:
+            continue
+        if b.locals[b.nargs].s != 'bool':
+            continue
+        es = [i for i in range(1, b.nargs + 1) if b.locals[i].k == 'ref' and b.locals[i].args[0].k == 'adt' and b.locals[i].args[0].name == E]
+        if len(es) == 2 and any((callee(bl.term)[1] or '').endswith('E::<T>::precedence') for bl in b.blocks if bl.term[0] == 'call'):
+            deciders.append((b, es))
+    if len(deciders) != 1:
+        res.cannot_decide(f'the parenthesis decider of the printer (found {len(deciders)})')
+        return [res]
+    dec, es = deciders[0]
+    sub_idx = es[1] - 1
+    flag_idx = dec.nargs - 1
+    n = 0
+    for b in prog.bodies.values():
+        if b.crate != 'samlang_printer':
+            continue
+        seen = {}
+        for bi, t in call_sites(b, lambda nm: nm == dec.name):
+            sub = t[3][sub_idx]
+            r, p = operand_root(b, sub)
+            fs = [e for e in p if e[0] == 'f']
+            if not fs or fs[-1][1] != binary.id:
+                continue
+            side = fs[-1][4]
+            n += 1
+            base = f'paren:{b.name}:{side}'
+            seen[base] = seen.get(base, 0) + 1
+            key = f'{base}#{seen[base]}'
+            flag = t[3][flag_idx]
+            if side == 'e2':
+                if flag[0] == 'k' and flag[1].i == 1:
+                    res.ok(key, b.loc(t[7]), 'right operand: parenthesised at equal precedence')
+                else:
+                    res.violation(key, b.loc(t[7]), f'{b.name} decides about parentheses for the right operand of a binary expression '
+                                  f'without parenthesising at equal precedence: `a - b - (c - d)` is printed as `a - b - c - d`, '
+                                  f'which the left-associative parser groups as ((a - b) - c) - d')
+            else:
+                res.ok(key, b.loc(t[7]), 'left operand: equal precedence needs no parentheses (left associativity)')
+    res.floor('parenthesis decisions for operands of Binary', n, 4)
+    return [res]
